@@ -96,7 +96,8 @@ def run(pid):
         module, inv_names, want = ("MCStore", "Refines / PredictedPositionsExact / FreedOnce", ("idxgc", "prigc")) if pid == "C04" else \
                                   ("MCStoreCrash", "Refines / ReopenPathsAgree / NoLiveFreed / PureAgrees", ("reopen",))
         for pl, il, mc in ([(33, 30, 6), (70, 70, 6)] if thorough else [(33, 30, 5)]):
-            consts = {"Vals": "{0, 5}", "PriLimit": pl, "IdxLimit": il, "MaxCalls": mc, "WithGC": "TRUE", "LowUses": "{0, 101}", "Deadlines": "{0, 1, 2}" if pid == "C04" else "{0}"}
+            consts = {"Vals": "{0, 5}", "PriLimit": pl, "IdxLimit": il, "MaxCalls": mc, "WithGC": "TRUE", "LowUses": "{0, 101}", "Deadlines": ("{0, 1, 2}" if thorough else "{0, 1}") if pid == "C04" else "{0}",
+                      "IDeadlines": ("{0, 1, 2, 3}" if thorough else "{0, 2}") if pid == "C04" else "{0}"}   # (the long walks below use limits 1..5 for both)
             if pid == "C02":
                 consts.update({"CommitOrder": '"pif"', "Faults": '{"reopen"}'})
             r0 = vlib.tlc_must(module, module + "_mc.cfg", consts=consts, timeout=3000)
@@ -121,6 +122,33 @@ def run(pid):
                 rep.cov["evaluations"] += nm
             checked_total += len(msc)
             total += len(msc)
+        # long walks (C04): KV.tla -simulate histories over the model's three keys with both collectors, time limits for both,
+        # thresholds 0 / 85 / 101 and reopen through snapshot, rescan and a truncated snapshot, executed on the real store
+        # (verdict: StoreTrace) and replayed through the mechanism model by StoreMTrace - the model is deterministic given
+        # the flush order, so it follows any recorded history, not only those of its own state graph
+        if pid == "C04":
+            w = ["put"] * 6 + ["rem"] * 2 + ["flush"] * 4 + ["idxgc"] * 3 + ["prigc"] * 2 + ["reopen"]
+            nw, dw = (3000, 80) if thorough else (250, 50)
+            kc = seqeng.kv_consts(3, w, dw, deadlines=(0, 0, 1, 2, 3, 5), lowuses=(0, 85, 101))
+            hsw, rw = seqeng.gen_histories(kc, "sim", num=nw, seed=vlib.seed() + 57)
+            rep.cov["transitions"] += rw.states
+            walked = 0
+            for wi, (pl, il) in enumerate([(33, 30), (70, 70), (200, 120)] if thorough else [(33, 30), (70, 70)]):
+                wcfg = dict(primary="mh", bits=8, il=il, pl=pl, imm=False, keys=mkeys, vals=seqeng.VALS, proj=True, probe="end")
+                part = [{"cfg": wcfg, "ops": fix_ops(wcfg, h)} for h in hsw[wi::(3 if thorough else 2)]]
+                byw, nwl = seqeng.run_and_judge(part, "walk", monitors=[("StoreTrace", None)], keep=True)
+                minew, _ = attribute(spec, part, byw)
+                report_bad(rep, part, minew)
+                wconsts = {"Vals": "{0, 5}", "PriLimit": pl, "IdxLimit": il, "MaxCalls": 100000, "WithGC": "TRUE", "LowUses": "{0, 101}", "Deadlines": "{0}", "IDeadlines": "{0}"}
+                drift, _, _ = vlib.validate_traces("StoreMTrace", "StoreMTrace.cfg", seqeng.KEPT_FILES, consts=wconsts, timeout=3000)
+                for f in seqeng.KEPT_FILES:
+                    os.unlink(f)
+                drift_total += len({(b["file"], b["t"]) for b in drift})
+                rep.cov["evaluations"] += nwl
+                walked += len(part)
+            checked_total += walked
+            total += walked
+            rep.cov["mechanism_model_long_walks_replayed"] = walked
         rep.cov["mechanism_model_histories_replayed"] = checked_total
         rep.cov["mechanism_model_histories_whose_files_differ_from_the_model"] = drift_total
     # 1. exhaustive short histories
